@@ -37,8 +37,9 @@ type Params struct {
 	KS       []int   // key size of message i, -1 = nil key
 	Parts    []int32 // partition of message i (manual partitioner)
 	NParts   int
-	Policy   string // drain | input
-	CloseAny bool   // AsyncClose offered at every decision point after the first submit
+	Policy   string   // drain | input
+	CloseAny bool     // AsyncClose offered at every decision point after the first submit
+	Faults   []string // produce faults the broker may answer with (default none: C16 quantifies over sizes and latency)
 }
 
 func atoi(v url.Values, k string, def int) int {
@@ -71,7 +72,7 @@ func Parse(v url.Values) (*Params, error) {
 	p := &Params{
 		MMB: atoi(v, "mmb", 1000000), MRS: atoi(v, "mrs", 0), FM: atoi(v, "fm", 0), FB: atoi(v, "fb", 0),
 		FF: time.Duration(atoi(v, "ff", 0)) * time.Millisecond, FX: atoi(v, "fx", 0), Policy: v.Get("policy"),
-		CloseAny: atoi(v, "closeany", 0) == 1,
+		CloseAny: atoi(v, "closeany", 0) == 1, Faults: splitNonEmpty(v.Get("faults")),
 	}
 	if p.Policy == "" {
 		p.Policy = "drain"
@@ -269,6 +270,7 @@ func run(c *gx.Ctl, p *Params) *gx.Outcome {
 	}
 	cl.AddTopic("t", leaders...)
 	cl.UrgentMetadata = true
+	cl.ProduceFaults = p.Faults
 	c.AutoRelease = func(site string) bool { return true }
 
 	// MaxRequestSize is a package variable: lowered for this execution only (executions of a process are
@@ -524,4 +526,11 @@ func (r *rig) digest() string {
 	sort.Strings(ev)
 	fmt.Fprintf(&sb, "E%v S%d C%v P%s R%d", ev, r.submitted, r.closing, r.cl.PendingKinds(), len(r.cl.Produced))
 	return sb.String()
+}
+
+func splitNonEmpty(s string) []string {
+	if s == "" {
+		return nil
+	}
+	return strings.Split(s, ",")
 }
